@@ -139,6 +139,16 @@ class Graph:
         lines = self.lines(**kw)
         rng = kw.get("rng")
         self.text_noise = []
+        if rng is not None and rng.random() < 0.1 and self.nodes:
+            # links that name a segment which is not in the file (a sub-graph extract that kept the links
+            # leaving it): such a link is not part of the graph, everything around it is
+            ids = list(self.nodes)
+            for k in range(rng.randint(1, 2)):
+                a = rng.choice(ids)
+                dl = "\t".join(["L", a, rng.choice("+-"), f"absent_segment_{k}", rng.choice("+-"), "0M"]) if rng.random() < 0.5 else \
+                     "\t".join(["L", f"absent_segment_{k}", rng.choice("+-"), a, rng.choice("+-"), "0M"])
+                lines.insert(rng.randint(1 if lines and lines[0].startswith("H") else 0, len(lines)), dl)
+            self.text_noise.append("dangling_links")
         if rng is not None and rng.random() < 0.15 and len(lines) > 1:
             # empty lines (between blocks of records or anywhere inside the file) are not records
             for _ in range(rng.randint(1, 3)):
